@@ -60,6 +60,12 @@ var corpus = []string{
 	"module m{namespace u;prefix p;leaf l{type int8{range \"a\";}}leaf n{type string{length \"1..\";}}}",
 	"module m{namespace u;prefix p;deviation /x{}leaf-list l{type string;min-elements -1;}}",
 	"module m{namespace u;prefix p;leaf l{type string;config T;status old;}}",
+	// symbol-table errors (raised after the whole text has been read): names of built-in types,
+	// shadowing of typedefs and groupings in nested scopes
+	"module m{namespace u;prefix p;typedef string{type int8;}}",
+	"module m{namespace u;prefix p;container c{typedef union{type int8;}leaf l{type union;}}}",
+	"module m{namespace u;prefix p;grouping g{leaf a{type string;}}container c{grouping g{leaf b{type string;}}uses g;}}",
+	"module m{namespace u;prefix p;typedef t{type int8;}list l{key k;leaf k{type t;}typedef t{type string;}}}",
 }
 
 func init() {
